@@ -52,11 +52,19 @@ static const family FIT[] = {
     { "modified-ILU cancellation (dropped mass = minus every pivot candidate): {n=4 all patterns with full diagonal, n=5 upper triangular} x vals{13,14} x BASIC tol .5 x norm3 x milu4 x {NATURAL,COLAMD} x tune{1-col,(2,1,2..),default} x type4", 7, { 5120, 2, 3, 4, 2, 3, 4 }, sI_m },
     FAM_Z4, FAM_Z6, FAM_SYM(37), FAM_S16(8 + 600),
 };
+/* sanitizer build: the small-order families with the first values of every option list (out-of-bounds reads are only visible there: the ledger's own
+   blocks are addressable beyond their end in the plain builds) */
+static const family FIS[] = {
+    { "ALL(1..3) x V1 x drop{NODROP,BASIC} x tol 1e-4 x fill{10,1} x norm inf x milu{SILU,SMILU_2} x rowperm{none,MC64} x trans N x colperm{NAT,COLAMD} x tune{default,(2,1,2..)} x type4", 12, { N_ALL123, 1, 2, 1, 2, 1, 2, 2, 1, 2, 2, 4 }, sI_a },
+    { "DEV_1(BASE(6)) first 5 deviations x V1 x drop{NODROP,BASIC} x tol 1e-4 x fill{10,1} x norm inf x milu2 x rowperm2 x trans N x colperm2 x tune2 x type4", 13, { 9, 5, 1, 2, 1, 2, 1, 2, 2, 1, 2, 2, 4 }, sI_b },
+    FAM_SYM(13), FAM_S16(8),
+};
 static void sI_bt(const int *d, vcase *c) { int e[13]; memcpy(e, d, sizeof e); e[12] = d[12] ? TZ : TD; sI_b(e, c); }
 #define NF(F) ((int)(sizeof F / sizeof *F))
-static long sz_I(int tier) { return tier ? fam_total(FIT, NF(FIT)) : fam_total(FIQ, NF(FIQ)); }
-static void dec_I(int tier, long idx, vcase *c) { if (tier) { fam_decode(FIT, NF(FIT), idx, c); if (c->fam == 1) { /* {d,z} */ c->type = (c->type == 0) ? TD : TZ; } } else fam_decode(FIQ, NF(FIQ), idx, c); }
-static void desc_I(int tier, char *b, size_t cap) { if (tier) fam_describe(FIT, NF(FIT), b, cap); else fam_describe(FIQ, NF(FIQ), b, cap); }
+#define SAN (!strncmp(wk_variant, "asan", 4))
+static long sz_I(int tier) { if (SAN) return fam_total(FIS, NF(FIS)); return tier ? fam_total(FIT, NF(FIT)) : fam_total(FIQ, NF(FIQ)); }
+static void dec_I(int tier, long idx, vcase *c) { if (SAN) { fam_decode(FIS, NF(FIS), idx, c); return; } if (tier) { fam_decode(FIT, NF(FIT), idx, c); if (c->fam == 1) { /* {d,z} */ c->type = (c->type == 0) ? TD : TZ; } } else fam_decode(FIQ, NF(FIQ), idx, c); }
+static void desc_I(int tier, char *b, size_t cap) { if (SAN) fam_describe(FIS, NF(FIS), b, cap); else if (tier) fam_describe(FIT, NF(FIT), b, cap); else fam_describe(FIQ, NF(FIQ), b, cap); }
 
 /* everything a caller can observe of one xgsisx call, as a hash; fresh library blocks are pre-filled with `fill` */
 static uint64_t ilu_once(const vcase *c, int fill)
